@@ -958,6 +958,107 @@ theorem recvRun_aborts_at_parse_error :
       abortRun2.1.nextMsgLen = 0 ∧ hooksOf abortRun2 = [some (some .methodReturnReceived), none]) := by
   refine ⟨⟨?_, ?_, ?_, ?_⟩, ⟨?_, ?_, ?_, ?_⟩⟩ <;> decide +kernel
 
+/-! ## Several connections of one process (state-leak round 2026-09-30)
+
+The statement speaks of "a connection's byte stream"; a process has many connections, served by the reactor in any
+order.  `Receive.Conns.runHist` (Proto/Receive.lean) is a history of `dataReceived` calls over an indexed family of
+protocol states.  `history_independent`: in ANY history, from ANY states, connection `c` ends in the state and has the
+effects of `run` over its own reads alone - whatever the other connections received in between (mid-message,
+mid-handshake, garbage, an over-long line that closed them, a read that raised).  So every single-connection theorem
+above holds per connection of a history: `interleaved_delivers_messages_sent`,
+`interleaved_delivers_messages_sent_after_handshake`.  A connection that is lost gets no further events; a connection made
+afterwards is an index still at `St.init`.  In the MODEL this is by construction (`step` takes one state); that the CODE
+keeps `_buffer` / `_nextMsgLen` / `_endian` / `_authenticated` / `_firstByte` per instance is what the stream
+`connections-interleaved` checks against `runHist` (driver command `H`) and judges by the statement per connection. -/
+section Connections
+open Txdbus.Proto.Receive.Conns
+
+theorem effectsOf_tag_same (c : Nat) (l : List Effect) (t : List (Nat × Effect)) :
+    effectsOf c (l.map (fun e => (c, e)) ++ t) = l ++ effectsOf c t := by
+  induction l with
+  | nil => rfl
+  | cons e l ih => simp [effectsOf, ih]
+
+theorem effectsOf_tag_other (c k : Nat) (h : k ≠ c) (l : List Effect) (t : List (Nat × Effect)) :
+    effectsOf c (l.map (fun e => (k, e)) ++ t) = effectsOf c t := by
+  induction l with
+  | nil => rfl
+  | cons e l ih => simp [effectsOf, h, ih]
+
+/-- **Connections of one process do not see each other.**  For every authenticator, every family of protocol states,
+every history of reads and every connection `c`: the state of `c` after the history and the effects that happened on `c`
+are those of `run` over the reads `c` was handed, from the state `c` had - nothing of the other connections' reads. -/
+theorem history_independent (A : Auth α) (w : Nat → St α) (es : List Event) (c : Nat) :
+    (runHist A w es).1 c = (run A (w c) (readsOf c es)).1 ∧
+    effectsOf c (runHist A w es).2 = (run A (w c) (readsOf c es)).2 := by
+  induction es generalizing w with
+  | nil => exact ⟨rfl, rfl⟩
+  | cons ev es ih =>
+    obtain ⟨k, d⟩ := ev
+    have h := ih (stepAt A w k d).1
+    by_cases hk : k = c
+    · subst hk
+      have hw : (stepAt A w k d).1 k = (step A (w k) d).1 := by simp [stepAt]
+      rw [hw] at h
+      simp only [runHist, readsOf, if_pos, run]
+      rw [effectsOf_tag_same]
+      refine ⟨h.1, ?_⟩
+      rw [h.2]
+      rfl
+    · have hw : (stepAt A w k d).1 c = w c := by
+        simp only [stepAt]
+        rw [if_neg (fun e => hk e.symm)]
+      rw [hw] at h
+      simp only [runHist, readsOf, if_neg hk]
+      rw [effectsOf_tag_other c k hk]
+      exact h
+
+/-- **C04 for a connection among others, binary mode.**  Any history over any number of connections in any states;
+connection `c` is authenticated with nothing buffered and is handed, cut up in ANY way and interleaved in ANY way with the
+reads of the others, the well-formed messages `ms`: on `c` exactly `ms` is delivered, each once, in order, nothing stays
+buffered. -/
+theorem interleaved_delivers_messages_sent (A : Auth α) (w : Nat → St α) (es : List Event) (c : Nat) (ms : List Bytes)
+    (ha : (w c).authenticated = true) (hbuf : (w c).buffer = []) (hnext : (w c).nextMsgLen = 0)
+    (hwf : ∀ m ∈ ms, Spec.WellFormed m) (h : (readsOf c es).flatten = ms.flatten) :
+    effectsOf c (runHist A w es).2 = ms.map Effect.msg ∧ ((runHist A w es).1 c).buffer = [] := by
+  have hi := history_independent A w es c
+  have hd := delivers_messages_sent A (w c) ms (readsOf c es) ha hbuf hnext hwf h
+  rw [hi.1, hi.2]
+  exact hd
+
+/-- **C04 for a connection among others, behind its handshake.**  Connection `c` is fresh (premises of
+`delivers_messages_sent_after_handshake`); its handshake and its messages `ms` arrive cut anywhere and interleaved in any
+way with what the other connections receive (their handshakes, their messages, their failures): the authenticator of `c`
+is handed exactly the handshake lines of `c`, exactly `ms` is delivered on `c`, nothing stays buffered. -/
+theorem interleaved_delivers_messages_sent_after_handshake (A : Auth α) (w : Nat → St α) (es : List Event) (c : Nat)
+    (hs : List Bytes) (last : Bytes) (ms : List Bytes) (a1 a' : α)
+    (hr : Ready (w c)) (ha : (w c).authenticated = false) (hbuf : (w c).buffer = []) (hcl : (w c).closed = false)
+    (hnext : (w c).nextMsgLen = 0)
+    (hlines : ∀ l ∈ hs ++ [last], Spec.hasCRLF l = false ∧ l.length ≤ maxAuthLength)
+    (hrun : authRun A (w c).auth hs = some a1) (hlast : A.handle a1 last = (a', .success))
+    (hwf : ∀ m ∈ ms, Spec.WellFormed m)
+    (hne : readsOf c es ≠ []) (hreads : (readsOf c es).flatten = Spec.unlines (hs ++ [last]) ++ ms.flatten) :
+    linesOf (effectsOf c (runHist A w es).2) = hs ++ [last] ∧ msgsOf (effectsOf c (runHist A w es).2) = ms ∧
+    ((runHist A w es).1 c).buffer = [] := by
+  have hi := history_independent A w es c
+  have hd := delivers_messages_sent_after_handshake A (w c) hs last ms (readsOf c es) a1 a' hr ha hbuf hcl hnext
+    hlines hrun hlast hwf hne hreads
+  rw [hi.1, hi.2]
+  exact hd
+
+/-- Instance: two connections, each sent one 16-byte message; A gets its fixed header minus one byte, then B gets the
+first 8 bytes of its message, then A its last byte, then B the rest: each delivers its own message. -/
+example :
+    let mA : Bytes := [108, 2, 1, 1, 0, 0, 0, 0, 1, 0, 0, 0, 0, 0, 0, 0]
+    let mB : Bytes := [66, 2, 1, 1, 0, 0, 0, 0, 0, 0, 0, 2, 0, 0, 0, 0]
+    let w : Nat → St Unit := fun _ => { St.init true () with authenticated := true }
+    let es : List Event := [(0, mA.take 15), (1, mB.take 8), (0, mA.drop 15), (1, mB.drop 8)]
+    effectsOf 0 (runHist ⟨fun a _ => (a, .cont)⟩ w es).2 = [.msg mA] ∧
+    effectsOf 1 (runHist ⟨fun a _ => (a, .cont)⟩ w es).2 = [.msg mB] := by
+  decide +kernel
+
+end Connections
+
 end Txdbus.Proto
 
 open Txdbus.Proto in
@@ -1016,3 +1117,13 @@ open Txdbus.Proto in
 #print axioms exCall_sent
 open Txdbus.Proto in
 #print axioms recvRun_aborts_at_parse_error
+open Txdbus.Proto in
+#print axioms history_independent
+open Txdbus.Proto in
+#print axioms interleaved_delivers_messages_sent
+open Txdbus.Proto in
+#print axioms interleaved_delivers_messages_sent_after_handshake
+open Txdbus.Proto in
+#print axioms effectsOf_tag_same
+open Txdbus.Proto in
+#print axioms effectsOf_tag_other
